@@ -5,9 +5,12 @@ cd /verif || exit 3
 ids=${*:-$(ls seeded | grep '^C')}
 for s in $ids; do
   prop=$(python3 -c "import json;print(json.load(open('seeded/$s/meta.json'))['breaks_property'])")
+  # (a change may fall to the check of another property: e.g. a thread race seeded for C11 is C18's)
+  also=$(python3 -c "import json;print(json.load(open('seeded/$s/meta.json')).get('also_screen_with',''))")
   git -C /repo diff --quiet || { echo "/repo has uncommitted changes"; exit 3; }
   git -C /repo apply /verif/seeded/$s/patch.diff || { echo "SEED $s patch-does-not-apply"; continue; }
   out=$(./check $prop --tier quick 2>&1 | grep -E "^(OK|FAIL)" | tail -1)
+  case "$out" in FAIL*) ;; *) [ -n "$also" ] && out=$(./check $also --tier quick 2>&1 | grep -E "^(OK|FAIL)" | tail -1);; esac
   git -C /repo checkout -- .
   case "$out" in FAIL*) echo "SEED $s caught  [$out]";; *) echo "SEED $s MISSED  [$out]";; esac
 done
